@@ -1,3 +1,459 @@
-(** C05 — proofs (placeholder) *)
+(** C05 — lemmas: wei/unibi arithmetic, ledger sums, commit, and the analysis of one delivered tx. *)
 From Coq Require Import List Bool Arith ZArith Lia.
-Require Import Nib.C05.Model Nib.C05.Spec Nib.C05.Facts.
+Import ListNotations.
+Require Import Nib.C05.Model Nib.C05.Spec.
+Open Scope Z_scope.
+
+(* ------------------------------------------------------------------ wei <-> unibi *)
+
+Lemma WEI_pos : 0 < WEI.
+Proof. reflexivity. Qed.
+
+Lemma to_native_bounds w : WEI * to_native w <= w < WEI * to_native w + WEI.
+Proof.
+  unfold to_native. pose proof WEI_pos. split.
+  - apply Z.mul_div_le. assumption.
+  - pose proof (Z.mul_succ_div_gt w WEI H). lia.
+Qed.
+
+Lemma to_native_nonneg w : 0 <= w -> 0 <= to_native w.
+Proof. intro H. unfold to_native. apply Z.div_pos; [assumption|apply WEI_pos]. Qed.
+
+Lemma to_native_mono a b : a <= b -> to_native a <= to_native b.
+Proof. intro H. unfold to_native. apply Z.div_le_mono; [apply WEI_pos|assumption]. Qed.
+
+Lemma to_native_to_wei n : to_native (to_wei n) = n.
+Proof. unfold to_native, to_wei. apply Z.div_mul. pose proof WEI_pos. lia. Qed.
+
+Lemma to_native_add_le a b : to_native a + to_native b <= to_native (a + b).
+Proof.
+  unfold to_native at 3. apply Z.div_le_lower_bound; [apply WEI_pos|].
+  pose proof (to_native_bounds a). pose proof (to_native_bounds b). lia.
+Qed.
+
+Lemma to_native_exact x : (WEI | x) -> WEI * to_native x = x.
+Proof.
+  intros [k Hk]. subst. unfold to_native. rewrite Z.div_mul by (pose proof WEI_pos; lia). lia.
+Qed.
+
+(** the fee arithmetic: net payment = prepay - refund is within one unibi of gasUsed x price,
+    non-negative and never more than the prepayment *)
+Lemma net_payment_bounds L u p :
+  0 <= u <= L -> 0 <= p ->
+  WEI * net_payment L u p - WEI < u * p < WEI * net_payment L u p + WEI /\
+  0 <= net_payment L u p <= prepay L p.
+Proof.
+  intros Hu Hp. unfold net_payment, prepay, refund.
+  pose proof (to_native_bounds (L * p)) as HA.
+  destruct (L <=? u) eqn:E.
+  - apply Z.leb_le in E. assert (u = L) by lia. subst u.
+    assert (0 <= to_native (L * p)) by (apply to_native_nonneg; apply Z.mul_nonneg_nonneg; lia). lia.
+  - apply Z.leb_gt in E.
+    pose proof (to_native_bounds ((L - u) * p)) as HB.
+    assert (HAB : (L - u) * p = L * p - u * p) by ring.
+    assert (0 <= (L - u) * p) by (apply Z.mul_nonneg_nonneg; lia).
+    assert (0 <= u * p) by (apply Z.mul_nonneg_nonneg; lia).
+    assert (to_native ((L - u) * p) <= to_native (L * p)) by (apply to_native_mono; lia).
+    assert (0 <= to_native ((L - u) * p)) by (apply to_native_nonneg; assumption).
+    lia.
+Qed.
+
+Lemma eff_price_ge_base f base : base <= eff_price f base.
+Proof. unfold eff_price. destruct (f_type f); lia. Qed.
+
+(* ------------------------------------------------------------------ sums over the universe *)
+
+Lemma sumU_ext f g U : (forall a, In a U -> f a = g a) -> sumU f U = sumU g U.
+Proof. induction U as [|x r IH]; simpl; intro H; [reflexivity|]. rewrite (H x), IH; auto. Qed.
+
+Lemma sumU_zero U : sumU (fun _ => 0) U = 0.
+Proof. induction U; simpl; lia. Qed.
+
+Lemma sumU_sub f g U : sumU (fun a => f a - g a) U = sumU f U - sumU g U.
+Proof. induction U; simpl; lia. Qed.
+
+Lemma sumU_scale k f U : sumU (fun a => k * f a) U = k * sumU f U.
+Proof. induction U; simpl; lia. Qed.
+
+Lemma sumU_le f g U : (forall a, In a U -> f a <= g a) -> sumU f U <= sumU g U.
+Proof. induction U as [|x r IH]; simpl; intro H; [lia|]. pose proof (H x (or_introl eq_refl)). assert (sumU f r <= sumU g r) by auto. lia. Qed.
+
+Lemma upd_same f a v : upd f a v a = v.
+Proof. unfold upd. rewrite Nat.eqb_refl. reflexivity. Qed.
+
+Lemma upd_other f a v b : b <> a -> upd f a v b = f b.
+Proof. unfold upd. intro H. apply Nat.eqb_neq in H. rewrite H. reflexivity. Qed.
+
+Lemma sumU_upd_notin f a v U : ~ In a U -> sumU (upd f a v) U = sumU f U.
+Proof. intro H. apply sumU_ext. intros b Hb. apply upd_other. intro; subst; auto. Qed.
+
+Lemma sumU_upd_in f a v U : NoDup U -> In a U -> sumU (upd f a v) U = sumU f U - f a + v.
+Proof.
+  induction U as [|x r IH]; intros Hn Hin; [destruct Hin|].
+  inversion Hn; subst. simpl. destruct Hin as [->|Hin].
+  - rewrite upd_same, sumU_upd_notin by assumption. lia.
+  - rewrite upd_other by (intro; subst; auto). rewrite IH by assumption. lia.
+Qed.
+
+Lemma sumU_native_le w U : sumU (fun a => to_native (w a)) U <= to_native (sumU w U).
+Proof.
+  induction U as [|x r IH]; simpl.
+  - unfold to_native. rewrite Z.div_0_l; [lia|pose proof WEI_pos; lia].
+  - pose proof (to_native_add_le (w x) (sumU w r)). lia.
+Qed.
+
+Lemma sumU_native_exact w U : (forall a, In a U -> (WEI | w a)) -> WEI * sumU (fun a => to_native (w a)) U = sumU w U.
+Proof.
+  induction U as [|x r IH]; cbn [sumU]; intro H; [lia|].
+  rewrite Z.mul_add_distr_l, IH by (intros; apply H; right; assumption).
+  rewrite to_native_exact by (apply H; left; reflexivity). reflexivity.
+Qed.
+
+Lemma memb_In a U : memb a U = true -> In a U.
+Proof. unfold memb. intro H. apply existsb_exists in H as [x [Hx He]]. apply Nat.eqb_eq in He. subst. assumption. Qed.
+
+(* ------------------------------------------------------------------ bank primitives *)
+
+Definition nonneg (f : nat -> Z) : Prop := forall a, 0 <= f a.
+
+Lemma send_spec b x y n b' :
+  send b x y n = Some b' ->
+  0 <= n <= bal b x /\ supply b' = supply b /\
+  bal b' = (let f := upd (bal b) x (bal b x - n) in upd f y (f y + n)).
+Proof.
+  unfold send. destruct ((0 <=? n) && (n <=? bal b x)) eqn:E; [|discriminate].
+  apply andb_true_iff in E as [E1 E2]. apply Z.leb_le in E1. apply Z.leb_le in E2.
+  intro H. inversion H; subst. simpl. auto.
+Qed.
+
+Lemma send_bal b x y n b' : send b x y n = Some b' -> x <> y ->
+  bal b' x = bal b x - n /\ bal b' y = bal b y + n /\ (forall a, a <> x -> a <> y -> bal b' a = bal b a).
+Proof.
+  intros H Hxy. apply send_spec in H as [_ [_ ->]]. cbv zeta. split; [|split].
+  - rewrite upd_other by assumption. apply upd_same.
+  - rewrite upd_same. rewrite upd_other by auto. reflexivity.
+  - intros a Hx Hy. rewrite !upd_other by assumption. reflexivity.
+Qed.
+
+Lemma send_sum b x y n b' U : send b x y n = Some b' -> NoDup U -> In x U -> In y U ->
+  sumU (bal b') U = sumU (bal b) U.
+Proof.
+  intros H Hn Hx Hy. apply send_spec in H as [_ [_ ->]]. cbv zeta.
+  rewrite sumU_upd_in by assumption. rewrite sumU_upd_in by assumption. lia.
+Qed.
+
+Lemma send_nonneg b x y n b' : send b x y n = Some b' -> nonneg (bal b) -> nonneg (bal b').
+Proof.
+  intros H Hb. apply send_spec in H as [Hn [_ ->]]. cbv zeta. intro a. unfold upd.
+  destruct (Nat.eqb a y), (Nat.eqb a x), (Nat.eqb y x); pose proof (Hb a); pose proof (Hb y); pose proof (Hb x); lia.
+Qed.
+
+Lemma set_acc_balance_spec b a target :
+  0 <= target -> 0 <= bal b a ->
+  exists b', set_acc_balance b a target = Some b' /\
+             bal b' a = target /\ (forall x, x <> a -> bal b' x = bal b x) /\
+             supply b' = supply b + target - bal b a.
+Proof.
+  intros Ht Hb. unfold set_acc_balance.
+  destruct (0 <? target - bal b a) eqn:E1.
+  - eexists. split; [reflexivity|]. unfold mint. simpl. rewrite upd_same.
+    split; [lia|]. split; [intros; apply upd_other; assumption|lia].
+  - apply Z.ltb_ge in E1. destruct (target - bal b a <? 0) eqn:E2.
+    + apply Z.ltb_lt in E2. unfold burn.
+      assert (Hle : (- (target - bal b a) <=? bal b a) = true) by (apply Z.leb_le; lia). rewrite Hle.
+      eexists. split; [reflexivity|]. simpl. rewrite upd_same.
+      split; [lia|]. split; [intros; apply upd_other; assumption|lia].
+    + apply Z.ltb_ge in E2. exists b. split; [reflexivity|]. split; [lia|]. split; [auto|lia].
+Qed.
+
+Lemma commit_spec U : forall wei b, NoDup U ->
+  (forall a, In a U -> 0 <= wei a) -> (forall a, In a U -> 0 <= bal b a) ->
+  exists b', commit U wei b = Some b' /\
+             (forall a, In a U -> bal b' a = to_native (wei a)) /\
+             (forall a, ~ In a U -> bal b' a = bal b a) /\
+             supply b' = supply b + sumU (fun a => to_native (wei a)) U - sumU (bal b) U.
+Proof.
+  induction U as [|x r IH]; intros wei b Hn Hw Hb.
+  - exists b. simpl. split; [reflexivity|]. split; [intros ? []|]. split; [auto|lia].
+  - inversion Hn; subst.
+    destruct (set_acc_balance_spec b x (to_native (wei x))) as [b1 [E1 [B1 [B2 B3]]]].
+    { apply to_native_nonneg. apply Hw. left; reflexivity. }
+    { apply Hb. left; reflexivity. }
+    destruct (IH wei b1 H2) as [b' [E' [C1 [C2 C3]]]].
+    { intros a Ha. apply Hw. right; assumption. }
+    { intros a Ha. rewrite B2 by (intro; subst; auto). apply Hb. right; assumption. }
+    exists b'. simpl. rewrite E1. split; [exact E'|]. split; [|split].
+    + intros a [->|Ha]; [rewrite C2 by assumption; exact B1|apply C1; assumption].
+    + intros a Ha. rewrite C2 by (intro; apply Ha; right; assumption). apply B2. intro; subst; apply Ha; left; reflexivity.
+    + rewrite C3, B3. assert (sumU (bal b1) r = sumU (bal b) r) by (apply sumU_ext; intros a Ha; apply B2; intro; subst; auto). lia.
+Qed.
+
+(* ------------------------------------------------------------------ EVM effects in wei *)
+
+Lemma apply_op_spec U wei o wei' : NoDup U ->
+  apply_op U wei o = Some wei' -> nonneg wei ->
+  nonneg wei' /\ sumU wei' U <= sumU wei U /\ (forall a, ~ In a U -> wei' a = wei a) /\
+  (forall a, op_touches a o = false -> wei' a = wei a).
+Proof.
+  intros Hn H Hw. destruct o as [x y w|x y]; simpl in H.
+  - destruct (memb x U && memb y U && (0 <=? w) && (w <=? wei x)) eqn:E; [|discriminate].
+    apply andb_true_iff in E as [E E4]. apply andb_true_iff in E as [E E3]. apply andb_true_iff in E as [E1 E2].
+    apply memb_In in E1. apply memb_In in E2. apply Z.leb_le in E3. apply Z.leb_le in E4.
+    inversion H; subst; clear H. cbv zeta. split; [|split; [|split]].
+    + intro a. unfold upd. destruct (Nat.eqb a y), (Nat.eqb a x), (Nat.eqb y x);
+        pose proof (Hw a); pose proof (Hw x); pose proof (Hw y); lia.
+    + rewrite sumU_upd_in by assumption. rewrite sumU_upd_in by assumption. lia.
+    + intros a Ha. rewrite !upd_other by (intro; subst; auto). reflexivity.
+    + intros a Ht. simpl in Ht. apply orb_false_iff in Ht as [T1 T2].
+      apply Nat.eqb_neq in T1. apply Nat.eqb_neq in T2. rewrite !upd_other by auto. reflexivity.
+  - destruct (memb x U && memb y U) eqn:E; [|discriminate].
+    apply andb_true_iff in E as [E1 E2]. apply memb_In in E1. apply memb_In in E2.
+    inversion H; subst; clear H. cbv zeta. split; [|split; [|split]].
+    + intro a. unfold upd. destruct (Nat.eqb a x), (Nat.eqb a y); pose proof (Hw a); pose proof (Hw x); pose proof (Hw y); lia.
+    + rewrite sumU_upd_in by assumption. rewrite sumU_upd_in by assumption.
+      unfold upd at 1. pose proof (Hw x). destruct (Nat.eqb x y) eqn:Exy.
+      * apply Nat.eqb_eq in Exy. subst. lia.
+      * lia.
+    + intros a Ha. rewrite !upd_other by (intro; subst; auto). reflexivity.
+    + intros a Ht. simpl in Ht. apply orb_false_iff in Ht as [T1 T2].
+      apply Nat.eqb_neq in T1. apply Nat.eqb_neq in T2. rewrite !upd_other by auto. reflexivity.
+Qed.
+
+Lemma apply_ops_spec U os : forall wei wei', NoDup U ->
+  apply_ops U wei os = Some wei' -> nonneg wei ->
+  nonneg wei' /\ sumU wei' U <= sumU wei U /\
+  (forall a, existsb (op_touches a) os = false -> wei' a = wei a).
+Proof.
+  induction os as [|o r IH]; intros wei wei' Hn H Hw; simpl in H.
+  - inversion H; subst. split; [assumption|]. split; [lia|auto].
+  - destruct (apply_op U wei o) as [w1|] eqn:E; [|discriminate].
+    destruct (apply_op_spec _ _ _ _ Hn E Hw) as [N1 [S1 [_ T1]]].
+    destruct (IH _ _ Hn H N1) as [N2 [S2 T2]].
+    split; [assumption|]. split; [lia|].
+    intros a Ha. simpl in Ha. apply orb_false_iff in Ha as [Ha1 Ha2]. rewrite T2 by assumption. apply T1. assumption.
+Qed.
+
+(** whole-unibi scripts: every balance stays a multiple of 10^12 and the wei total is preserved *)
+Lemma apply_op_whole U wei o wei' : NoDup U ->
+  apply_op U wei o = Some wei' -> op_whole o = true -> (forall a, (WEI | wei a)) ->
+  (forall a, (WEI | wei' a)) /\ sumU wei' U = sumU wei U.
+Proof.
+  intros Hn H Ho Hd. destruct o as [x y w|x y]; simpl in H, Ho.
+  - destruct (memb x U && memb y U && (0 <=? w) && (w <=? wei x)) eqn:E; [|discriminate].
+    apply andb_true_iff in E as [E E4]. apply andb_true_iff in E as [E E3]. apply andb_true_iff in E as [E1 E2].
+    apply memb_In in E1. apply memb_In in E2.
+    apply Z.eqb_eq in Ho. apply Z.mod_divide in Ho; [|pose proof WEI_pos; lia].
+    inversion H; subst; clear H. cbv zeta. split.
+    + intro a. unfold upd. destruct (Nat.eqb a y), (Nat.eqb a x), (Nat.eqb y x);
+        auto using Z.divide_add_r, Z.divide_sub_r.
+    + rewrite sumU_upd_in by assumption. rewrite sumU_upd_in by assumption. lia.
+  - destruct (memb x U && memb y U) eqn:E; [|discriminate].
+    apply andb_true_iff in E as [E1 E2]. apply memb_In in E1. apply memb_In in E2.
+    apply negb_true_iff in Ho. apply Nat.eqb_neq in Ho.
+    inversion H; subst; clear H. cbv zeta. split.
+    + intro a. unfold upd. destruct (Nat.eqb a x), (Nat.eqb a y); auto using Z.divide_add_r, Z.divide_0_r.
+    + rewrite sumU_upd_in by assumption. rewrite sumU_upd_in by assumption.
+      rewrite upd_other by assumption. lia.
+Qed.
+
+Lemma apply_ops_whole U os : forall wei wei', NoDup U ->
+  apply_ops U wei os = Some wei' -> forallb op_whole os = true -> (forall a, (WEI | wei a)) ->
+  (forall a, (WEI | wei' a)) /\ sumU wei' U = sumU wei U.
+Proof.
+  induction os as [|o r IH]; intros wei wei' Hn H Ho Hd; simpl in H.
+  - inversion H; subst. auto.
+  - simpl in Ho. apply andb_true_iff in Ho as [Ho1 Ho2].
+    destruct (apply_op U wei o) as [w1|] eqn:E; [|discriminate].
+    destruct (apply_op_whole _ _ _ _ Hn E Ho1 Hd) as [D1 S1].
+    destruct (IH _ _ Hn H Ho2 D1) as [D2 S2]. split; [assumption|lia].
+Qed.
+
+(* ------------------------------------------------------------------ one delivered tx *)
+
+Record env_wf (e : env) : Prop := {
+  wf_nodup : NoDup (e_universe e);
+  wf_signer : In (e_signer e) (e_universe e);
+  wf_collector : In (e_collector e) (e_universe e);
+  wf_distinct : e_signer e <> e_collector e;
+  wf_base : 0 <= e_base_fee e
+}.
+
+(** what the interpreter guarantees about its reported gas, and that the EVM run does not move the
+    fee collector's balance (it is a module account no scenario contract pays or drains) *)
+Record tx_wf (e : env) (t : etx) : Prop := {
+  wf_gas_used : 0 <= t_gas_used t <= t_gas t;
+  wf_collector_untouched : untouched (e_collector e) t = true
+}.
+
+Section Deliver.
+  Variable e : env.
+  Variable b : bank.
+  Variable t : etx.
+  Hypothesis He : env_wf e.
+  Hypothesis Hb : nonneg (bal b).
+  Hypothesis Ht : tx_wf e t.
+
+  Let S := e_signer e.
+  Let F := e_collector e.
+  Let U := e_universe e.
+  Let p := eff_price (t_fee t) (e_base_fee e).
+  Let L := t_gas t.
+  Let u := t_gas_used t.
+
+  Lemma p_nonneg : 0 <= p.
+  Proof. unfold p. pose proof (eff_price_ge_base (t_fee t) (e_base_fee e)). pose proof (wf_base _ He). lia. Qed.
+
+  Lemma refund_nonneg : 0 <= refund L u p.
+  Proof.
+    unfold refund. destruct (L <=? u) eqn:E; [lia|]. apply Z.leb_gt in E.
+    apply to_native_nonneg. apply Z.mul_nonneg_nonneg; [lia|apply p_nonneg].
+  Qed.
+
+  Definition mk (out : outcome) (b' : bank) : meas :=
+    {| m_env := e; m_tx := t; m_out := out; m_before := b; m_after := b' |}.
+
+  Lemma sum_delta b' : sumU (delta (mk Rejected b')) U = sumU (bal b') U - sumU (bal b) U.
+  Proof. unfold delta. simpl. apply sumU_sub. Qed.
+
+  (** the refund step, whichever branch it took *)
+  Lemma refund_step bc b2 :
+    (if refund L u p =? 0 then Some bc else send bc F S (refund L u p)) = Some b2 ->
+    supply b2 = supply bc /\ sumU (bal b2) U = sumU (bal bc) U /\
+    bal b2 S = bal bc S + refund L u p /\ bal b2 F = bal bc F - refund L u p /\
+    (forall a, a <> S -> a <> F -> bal b2 a = bal bc a).
+  Proof.
+    destruct (refund L u p =? 0) eqn:E.
+    - apply Z.eqb_eq in E. intro H. inversion H; subst. rewrite E. repeat split; auto; lia.
+    - intro H. pose proof (wf_distinct _ He) as Hd.
+      pose proof (send_spec _ _ _ _ _ H) as [_ [Hs _]].
+      pose proof (send_sum _ _ _ _ _ U H (wf_nodup _ He) (wf_collector _ He) (wf_signer _ He)) as Hsum.
+      destruct (send_bal _ _ _ _ _ H) as [B1 [B2 B3]]; [fold S F; auto|].
+      repeat split; auto.
+  Qed.
+
+  Theorem deliver_satisfies_P :
+    snd (deliver e b t) <> Stuck -> P (mk (snd (deliver e b t)) (fst (deliver e b t))).
+  Proof.
+    pose proof (wf_nodup _ He) as Hnd. pose proof (wf_signer _ He) as HS. pose proof (wf_collector _ He) as HF.
+    pose proof (wf_distinct _ He) as Hd. fold S F U in Hnd, HS, HF, Hd.
+    unfold deliver. destruct (ante e b t) as [b1|] eqn:Ea.
+    2:{ (* rejected *)
+      intros _. cbn [fst snd]. unfold P. cbn [m_out m_env m_tx mk].
+      assert (Hz : forall a, delta (mk Rejected b) a = 0) by (intro a; unfold delta; simpl; lia).
+      unfold dsupply. cbn [m_after m_before mk].
+      split; [rewrite (sumU_ext _ (fun _ => 0)) by (intros; apply Hz); rewrite sumU_zero; lia|].
+      split; [lia|]. split; [intros; apply Hz|lia]. }
+    (* ante passed: the prepayment moved from signer to collector *)
+    unfold ante in Ea. fold S F p in Ea.
+    destruct ((0 <? t_gas t) && (t_gas t <=? e_block_gas e) && (0 <=? t_value t) && (0 <=? cap_price (t_fee t))
+              && (t_gas t * cap_price (t_fee t) + t_value t <=? to_wei (bal b S))) eqn:Ec; [|discriminate].
+    apply andb_true_iff in Ec as [Ec _]. apply andb_true_iff in Ec as [Ec _]. apply andb_true_iff in Ec as [Ec Hv].
+    apply Z.leb_le in Hv.
+    pose proof (send_spec _ _ _ _ _ Ea) as [Hpre [Hs1 _]].
+    pose proof (send_sum _ _ _ _ _ U Ea Hnd HS HF) as Hsum1.
+    destruct (send_bal _ _ _ _ _ Ea Hd) as [A1 [A2 A3]].
+    pose proof (send_nonneg _ _ _ _ _ Ea Hb) as Hb1.
+    fold L in Hpre, A1, A2.
+    pose proof (net_payment_bounds L u p (wf_gas_used _ _ Ht) p_nonneg) as [Hnet1 Hnet2].
+    pose proof refund_nonneg as Hr0.
+    destruct (run_msg e b1 t) as [[b2 o]|] eqn:Em.
+    2:{ (* msg server error: only the prepayment happened *)
+      intros _. cbn [fst snd]. unfold P, dsupply, delta. cbn [m_out m_env m_tx m_after m_before mk].
+      fold S F U L p.
+      split; [rewrite sumU_sub; lia|]. split; [lia|].
+      split; [lia|]. split; [lia|]. split; [lia|]. split; [|lia].
+      intros a _ HaS HaF. rewrite A3 by assumption. lia. }
+    cbn [fst snd]. unfold run_msg in Em. fold S F U L p u in Em.
+    destruct (L <? t_intrinsic t); [discriminate|].
+    destruct ((0 <? t_value t) && (t_value t <? WEI)); [discriminate|].
+    set (v := to_wei (to_native (t_value t))) in *.
+    set (wei0 := fun a => to_wei (bal b1 a)) in *.
+    (* the three ways the EVM phase ends without an error *)
+    assert (Hfail : forall b2', (if refund L u p =? 0 then Some b1 else send b1 F S (refund L u p)) = Some b2' ->
+                    P (mk VmErr b2')).
+    { intros b2' Hr. destruct (refund_step _ _ Hr) as [R1 [R2 [R3 [R4 R5]]]].
+      unfold P, dsupply, delta. cbn [m_out m_env m_tx m_after m_before mk]. fold S F U L p u.
+      unfold net_payment in *. split; [rewrite sumU_sub; lia|]. split; [lia|].
+      split; [lia|]. split; [lia|]. split; [lia|]. split; [|lia].
+      intros a _ HaS HaF. rewrite R5, A3 by assumption. lia. }
+    destruct (t_evm t) as [script|] eqn:Eevm.
+    2:{ intros _. destruct (refund L u p =? 0) eqn:Er.
+        - inversion Em; subst. apply Hfail. rewrite Er. reflexivity.
+        - destruct (send b1 F S (refund L u p)) as [bx|] eqn:Es; [|discriminate]. inversion Em; subst.
+          apply Hfail. rewrite Er. exact Es. }
+    destruct (wei0 S <? v) eqn:Einsuf.
+    { intros _. destruct (refund L u p =? 0) eqn:Er.
+      - inversion Em; subst. apply Hfail. rewrite Er. reflexivity.
+      - destruct (send b1 F S (refund L u p)) as [bx|] eqn:Es; [|discriminate]. inversion Em; subst.
+        apply Hfail. rewrite Er. exact Es. }
+    destruct (apply_ops U wei0 (OTransfer S (t_to t) v :: script)) as [wei1|] eqn:Eops.
+    2:{ intro Hst. exfalso. apply Hst. destruct (refund L u p =? 0); [inversion Em; reflexivity|].
+        destruct (send b1 F S (refund L u p)); [inversion Em; reflexivity|discriminate]. }
+    destruct (commit U wei1 b1) as [bc|] eqn:Ecm.
+    2:{ intro Hst. exfalso. apply Hst. destruct (refund L u p =? 0); [inversion Em; reflexivity|].
+        destruct (send b1 F S (refund L u p)); [inversion Em; reflexivity|discriminate]. }
+    (* executed and committed *)
+    intros _.
+    assert (Hw0 : nonneg wei0).
+    { intro a. unfold wei0, to_wei. pose proof (Hb1 a). pose proof WEI_pos. nia. }
+    destruct (apply_ops_spec _ _ _ _ Hnd Eops Hw0) as [Hw1 [Hsumw Hunt]].
+    destruct (commit_spec U wei1 b1 Hnd (fun a _ => Hw1 a) (fun a _ => Hb1 a)) as [bc' [Ecm' [C1 [C2 C3]]]].
+    rewrite Ecm in Ecm'. inversion Ecm'; subst bc'. clear Ecm'.
+    assert (Hr : (if refund L u p =? 0 then Some bc else send bc F S (refund L u p)) = Some b2 /\ o = Ok).
+    { destruct (refund L u p =? 0); [inversion Em; auto|].
+      destruct (send bc F S (refund L u p)); [inversion Em; auto|discriminate]. }
+    destruct Hr as [Hr ->].
+    destruct (refund_step _ _ Hr) as [R1 [R2 [R3 [R4 R5]]]].
+    (* the collector is not touched by the EVM *)
+    pose proof (wf_collector_untouched _ _ Ht) as HuF. unfold untouched in HuF. rewrite Eevm in HuF. cbn [script_of] in HuF.
+    fold F in HuF. apply andb_true_iff in HuF as [HuF1 HuF2]. apply negb_true_iff in HuF1. apply negb_true_iff in HuF2.
+    assert (HweiF : wei1 F = wei0 F).
+    { apply Hunt. cbn [existsb op_touches]. rewrite HuF1, HuF2.
+      assert (Nat.eqb S F = false) by (apply Nat.eqb_neq; assumption). rewrite H. reflexivity. }
+    assert (HbcF : bal bc F = bal b1 F).
+    { rewrite C1 by assumption. rewrite HweiF. unfold wei0. apply to_native_to_wei. }
+    (* sums *)
+    assert (Hsum0 : sumU wei0 U = WEI * sumU (bal b1) U).
+    { unfold wei0, to_wei. rewrite <- sumU_scale. apply sumU_ext. intros; lia. }
+    assert (Hsumc : sumU (bal bc) U = sumU (fun a => to_native (wei1 a)) U) by (apply sumU_ext; intros; apply C1; assumption).
+    assert (Hle : sumU (fun a => to_native (wei1 a)) U <= sumU (bal b1) U).
+    { eapply Z.le_trans; [apply sumU_native_le|].
+      replace (sumU (bal b1) U) with (to_native (WEI * sumU (bal b1) U)).
+      - apply to_native_mono. lia.
+      - rewrite Z.mul_comm. apply to_native_to_wei. }
+    unfold P, dsupply, delta. cbn [m_out m_env m_tx m_after m_before mk]. fold S F U L p u.
+    unfold net_payment in *.
+    split; [rewrite sumU_sub; lia|]. split; [lia|].
+    split; [lia|]. split; [lia|]. split.
+    - (* whole unibi: exact conservation *)
+      intro Hwh. unfold whole_unibi in Hwh. rewrite Eevm in Hwh. cbn [script_of] in Hwh.
+      assert (Hd0 : forall a, (WEI | wei0 a)) by (intro a; unfold wei0, to_wei; exists (bal b1 a); lia).
+      assert (Hall : forallb op_whole (OTransfer S (t_to t) v :: script) = true).
+      { cbn [forallb op_whole]. rewrite Hwh. unfold v, to_wei. rewrite Z.mod_mul by (pose proof WEI_pos; lia). reflexivity. }
+      destruct (apply_ops_whole _ _ _ _ Hnd Eops Hall Hd0) as [D1 S1].
+      pose proof (sumU_native_exact wei1 U (fun a _ => D1 a)) as Hex.
+      pose proof WEI_pos. nia.
+    - (* signer not otherwise involved: pays net + the truncated value *)
+      intro HuS. unfold untouched in HuS. rewrite Eevm in HuS. cbn [script_of] in HuS. fold S in HuS.
+      apply andb_true_iff in HuS as [HuS1 HuS2]. apply negb_true_iff in HuS1. apply negb_true_iff in HuS2.
+      apply Nat.eqb_neq in HuS2.
+      cbn [apply_ops] in Eops. destruct (apply_op U wei0 (OTransfer S (t_to t) v)) as [w1|] eqn:E1; [|discriminate].
+      destruct (apply_ops_spec _ _ _ _ Hnd Eops) as [_ [_ Hunt']].
+      { destruct (apply_op_spec _ _ _ _ Hnd E1 Hw0) as [N _]. exact N. }
+      assert (HweiS : wei1 S = wei0 S - v).
+      { rewrite Hunt' by assumption. cbn [apply_op] in E1.
+        destruct (memb S U && memb (t_to t) U && (0 <=? v) && (v <=? wei0 S)); [|discriminate].
+        inversion E1; subst. cbv zeta. rewrite upd_other by auto. apply upd_same. }
+      assert (bal bc S = bal b1 S - to_native (t_value t)).
+      { rewrite C1 by assumption. rewrite HweiS. unfold wei0, v, to_wei.
+        replace (bal b1 S * WEI - to_native (t_value t) * WEI) with ((bal b1 S - to_native (t_value t)) * WEI) by ring.
+        apply to_native_to_wei. }
+      lia.
+  Qed.
+End Deliver.
+
+(* ------------------------------------------------------------------ histories *)
+
+Lemma deliver_nonneg e b t : env_wf e -> nonneg (bal b) -> snd (deliver e b t) <> Stuck ->
+  tx_wf e t -> nonneg (bal (fst (deliver e b t))) -> True.
+Proof. auto. Qed.
